@@ -1159,13 +1159,18 @@ func (p *provRunner) genMisb(r *Rng, prof provProfile) string {
 	if r.chance(12) && nv >= 4 {
 		// "framing": the last validator has the lowest power in header 1 (its tampered or foreign
 		// signature sits behind the early exit of both commit checks) and the highest in header 2
+		// (header 1 also has one validator more than header 2, so the victim's entry lies beyond
+		// every signature index of header 2)
 		var v1, v2 []string
 		for i, kv := range vals {
 			k := strings.Split(kv, ":")[0]
-			if i == nv-1 {
+			switch {
+			case i == nv-1:
 				v1 = append(v1, k+":1")
 				v2 = append(v2, k+":4")
-			} else {
+			case i == nv-2 && r.chance(70):
+				v1 = append(v1, k+":3") // only in header 1
+			default:
 				v1 = append(v1, k+":3")
 				v2 = append(v2, fmt.Sprintf("%s:%d", k, 1+r.intn(2)))
 			}
@@ -1174,7 +1179,7 @@ func (p *provRunner) genMisb(r *Rng, prof provProfile) string {
 		vals2 = " vals2=" + strings.Join(v2, ",")
 		b1 := bytes.Repeat([]byte{'c'}, nv)
 		b1[nv-1] = []byte{'b', 'w', 'c'}[r.intn(3)]
-		f1, f2 = string(b1), string(bytes.Repeat([]byte{'c'}, nv))
+		f1, f2 = string(b1), string(bytes.Repeat([]byte{'c'}, len(v2)))
 	} else if r.chance(25) {
 		// "lunatic" attack: header 2 carries another validator set - the same members with other powers
 		// (hence another order), possibly one fewer and one more
